@@ -499,7 +499,7 @@ func c18domainPortsFile(c *drv.Ctx) {
 			k.addKeyed(cl, overlong, content, fmt.Sprintf("parsePortsFile(%s) returns %s without error; the file lists %s", show, c18rangesText(got), c18refRangesText(ref)))
 		}
 	}
-	lines := []string{"80", "1-2", " 22 ", "", "# c", "443 # https", "0", "65535", "9-1", "x", "65536", "80,443", "\t80", "#"}
+	lines := []string{"80", "1-2", " 22 ", "", "# c", "443 # https", "0", "65535", "9-1", "x", "65536", "80,443", "\t80", "#", "80 - 443", "22 23", "443 x"}
 	maxLines := 3
 	if c.Thorough() {
 		maxLines = 4
